@@ -141,4 +141,6 @@ func HostileInputs(pattern string, rng *rand.Rand) []string {
 var HostileReplacements = []string{"", "$", "$$", "$0", "$1", "$99", "${", "${1", "${n}", "${99999999999}", "$99999999999", "$+", "$_", "$`$'", "\\$1", "$&$&$&", "${-1}", "$\x00", "${\xff}", "é$1é", "${n", "$(", "$ {1}"}
 
 // Describe renders a case compactly for the progress log.
-func Describe(pattern string, opts int) string { return fmt.Sprintf("opts=%#x pattern=%q", opts, pattern) }
+func Describe(pattern string, opts int) string {
+	return fmt.Sprintf("opts=%#x pattern=%q", opts, pattern)
+}
